@@ -233,9 +233,14 @@ class _TraceMixin:
         return super()._after_timer(delay_sec, event, owner_id)
 
 
+class _NullCtl(Ctl):
+    def emit(self, *a, **k) -> None:  # a restored interpreter before the harness attaches its Ctl
+        return None
+
+
 class TracedSync(_TraceMixin, SyncInterpreter):
-    def __init__(self, machine, ctl: Ctl, **kw):
-        self._ctl = ctl
+    def __init__(self, machine, ctl: Optional[Ctl] = None, **kw):
+        self._ctl = ctl if ctl is not None else _NullCtl()
         super().__init__(machine, **kw)
 
     def send(self, event_or_type, **payload):
@@ -248,8 +253,8 @@ class TracedSync(_TraceMixin, SyncInterpreter):
 
 
 class TracedAsync(_TraceMixin, Interpreter):
-    def __init__(self, machine, ctl: Ctl, **kw):
-        self._ctl = ctl
+    def __init__(self, machine, ctl: Optional[Ctl] = None, **kw):
+        self._ctl = ctl if ctl is not None else _NullCtl()
         super().__init__(machine, **kw)
 
     async def send(self, event_or_type, **payload):
